@@ -153,6 +153,8 @@ package store
 //@   ensures [reads-the-record] err == nil ==> ge.count == 1 && ge.res1 == nil && ge.arg2.string == dskey(KeyState()) && um.count == 1 && um.arg0 == ge.res0 && fp.count == 1 && fp.res0 == nil && fp.arg1 == um.arg1.val
 // ... and returns it as decoded: no field is adjusted on the way out (a read returns the last value written)
 //@   ensures [returns-the-decoded-state] err == nil ==> state == fp.arg0out
+// a missing state record is reported as such (start-up tells a fresh chain from a storage fault by it)
+//@   ensures [missing-is-not-found] ge.count == 1 && isErr(ge.res1, ds.ErrNotFound) ==> isErr(err, ds.ErrNotFound)
 
 // The getters read exactly the records SaveBlockData writes: the header record of the height, the
 // data record of the height, the height recorded for the hash.
